@@ -81,8 +81,17 @@ Record PT_valid (g : graph) (t : tree) : Prop := {
   (* each node carries exactly the constraints on its variable *)
   ptv_rels_nodup : forall a, NoDup (t_rels t a);
   ptv_rels : forall a c, In a (t_ids t) ->
-     (In c (t_rels t a) <-> exists sc, scope_of g c = Some sc /\ In a sc)
+     (In c (t_rels t a) <-> exists sc, scope_of g c = Some sc /\ In a sc);
+  (* a bounded depth function certifies the forest shape: every node reaches a root, and
+     both "parent of" and "child of" are well-founded (induction up and down the tree) *)
+  ptv_ranked : exists (d : Z -> nat) (N : nat),
+     (forall a, (d a <= N)%nat) /\ (forall a p, t_parent t a = Some p -> d a = S (d p))
 }.
+
+(* [rooted t a] : following parent links from a ends at a node without parent *)
+Inductive rooted (t : tree) : Z -> Prop :=
+| rooted_root : forall a, t_parent t a = None -> rooted t a
+| rooted_step : forall a p, t_parent t a = Some p -> rooted t p -> rooted t a.
 
 (* ------------------------------------------------------------------ *)
 (*  Executable checker                                                  *)
@@ -202,6 +211,27 @@ Definition set_root (b : bnode) : bnode :=
 Definition set_parent (b : bnode) (p : Z) (pps : list Z) : bnode :=
   mkB (b_neighbors b) (Some p) pps (b_pcs b) (b_children b) (b_visited b) (b_root b).
 
+(* the `for n in self._neighbors` loop of _propagate on node x; [rec st n] is
+   n.handle_token(self, token) *)
+Fixpoint prop_loop (rec : bstate -> Z -> option bstate) (x : Z) (ns : list Z) (st : bstate)
+  {struct ns} : option bstate :=
+  match ns with
+  | [] => Some st
+  | n :: ns' =>
+      if zmem n (b_visited (getb st x)) then prop_loop rec x ns' st
+      else
+        let st := if zmem n (b_pps (getb st x)) then st
+                  else setb st x (add_child (getb st x) n) in
+        match rec st n with
+        | None => None
+        | Some st' => prop_loop rec x ns' st'
+        end
+  end.
+
+(* self._neighbors.sort(key=count_neighbors_in_token(token), reverse=True) on node x *)
+Definition resort (st : bstate) (x : Z) (token : list Z) : bstate :=
+  setb st x (set_neighbors (getb st x) (sort_neighbors st token (b_neighbors (getb st x)))).
+
 (* handle_token(sender, token) on node x.  Python recursion -> fuel; None = out of fuel.
    [token] is the caller's token: handle_token copies it, so the callee's additions are
    never seen by the caller -- the token is the path from the root to the sender. *)
@@ -213,21 +243,8 @@ Fixpoint handle (fuel : nat) (st : bstate) (sender : option Z) (x : Z) (token : 
     (* _propagate(token) *)
     let propagate (st : bstate) : option bstate :=
       let token' := token ++ [x] in
-      let st := setb st x (set_neighbors (getb st x)
-                             (sort_neighbors st token' (b_neighbors (getb st x)))) in
-      (fix loop (ns : list Z) (st : bstate) {struct ns} : option bstate :=
-         match ns with
-         | [] => Some st
-         | n :: ns' =>
-             if zmem n (b_visited (getb st x)) then loop ns' st
-             else
-               let st := if zmem n (b_pps (getb st x)) then st
-                         else setb st x (add_child (getb st x) n) in
-               match handle f st (Some x) n token' with
-               | None => None
-               | Some st' => loop ns' st'
-               end
-         end) (b_neighbors (getb st x)) st in
+      let st := resort st x token' in
+      prop_loop (fun st n => handle f st (Some x) n token') x (b_neighbors (getb st x)) st in
     match sender with
     | None =>
         let st := setb st x (set_root (getb st x)) in
@@ -242,8 +259,7 @@ Fixpoint handle (fuel : nat) (st : bstate) (sender : option Z) (x : Z) (token : 
             else
               let pps := filter (fun n => zmem n token && negb (Z.eqb n s)) (b_neighbors b) in
               let st := setb st x (set_parent b s pps) in
-              let st := setb st x (set_neighbors (getb st x)
-                                     (sort_neighbors st token (b_neighbors (getb st x)))) in
+              let st := resort st x token in
               propagate st
         | Some _ =>
             if zmem s (b_children b) then Some st else Some (setb st x (add_pc b s))
@@ -276,19 +292,21 @@ Definition gen_dfs_tree (vars : list Z) (rels : list (list Z)) : option (Z * bst
   end.
 
 (* _visit_tree: preorder over children *)
+Fixpoint visit_loop (rec : Z -> option (list Z)) (cs : list Z) : option (list Z) :=
+  match cs with
+  | [] => Some []
+  | c :: cs' =>
+      match rec c, visit_loop rec cs' with
+      | Some a, Some b => Some (a ++ b)
+      | _, _ => None
+      end
+  end.
+
 Fixpoint visit (fuel : nat) (st : bstate) (x : Z) : option (list Z) :=
   match fuel with
   | O => None
   | S f =>
-      match (fix loop (cs : list Z) : option (list Z) :=
-               match cs with
-               | [] => Some []
-               | c :: cs' =>
-                   match visit f st c, loop cs' with
-                   | Some a, Some b => Some (a ++ b)
-                   | _, _ => None
-                   end
-               end) (b_children (getb st x)) with
+      match visit_loop (visit f st) (b_children (getb st x)) with
       | Some l => Some (x :: l)
       | None => None
       end
